@@ -209,7 +209,7 @@ pub fn gen_rw_run(check: &str, seed: u64, tier: Tier) -> Run {
     // mentions, every time) instead of being rebuilt per step
     run.set("persistent_rules", Rng::stream(seed, "persistent-rules").chance(1, 4) as i64);
     // ... and, in two thirds of those runs, to another e-graph first (same class ids / shifted class ids)
-    run.set("decoy_first", [0, 1, 2][Rng::stream(seed, "decoy-first").below(3)]);
+    run.set("decoy_first", [0, 1, 2, 3][Rng::stream(seed, "decoy-first").below(4)]);
     // (own stream) a companion e-graph in the same thread: same insertions and unions, the same Rewrite
     // values applied to it (all but the first) right before / after every rewriting step of the run
     run.set("companion", Rng::stream(seed, "companion").chance(1, 7) as i64);
@@ -309,8 +309,26 @@ fn warm_up_on_decoy(run: &Run, rules: &[Rewrite<LA, SimAn>]) {
         let n = |v: u32| Tm::pay("num", v);
         d.add_term(&Tm::node("mul", vec![], vec![(vec![], n(2)), (vec![], Tm::node("add", vec![], vec![(vec![], n(1)), (vec![], n(0))]))]), false);
     }
+    // kind 3: a twin of the run's start terms with `add` and `mul` exchanged everywhere - an e-graph with
+    // exactly the same progress measure (classes, slots, symmetries) on which other rules match
+    fn twin(t: &Tm) -> Tm {
+        let mut t = t.clone();
+        if t.name() == "add" {
+            t.op = crate::tm::op("mul");
+        } else if t.name() == "mul" {
+            t.op = crate::tm::op("add");
+        }
+        for k in t.kids.iter_mut() {
+            k.t = twin(&k.t);
+        }
+        t
+    }
     for op in run.ops.iter().filter(|o| o.name == "add") {
-        d.add_term(&op.t[0], false);
+        if run.get("decoy_first") == 3 {
+            d.add_term(&twin(&op.t[0]), false);
+        } else {
+            d.add_term(&op.t[0], false);
+        }
     }
     let _ = apply_rewrites(&mut d.eg, rules);
 }
@@ -1261,7 +1279,7 @@ impl Check for StopCheck {
         // possibly inserts a further term and / or passes other rules, and calls `run` again
         // (own streams) the same Rewrite values applied to another e-graph before the run; a hook that
         // unites the classes of the two start terms at a seeded call (hooks may change the e-graph)
-        run.set("decoy_first", [0, 0, 0, 1, 2][Rng::stream(seed, "c15-decoy").below(5)]);
+        run.set("decoy_first", [0, 0, 0, 1, 2, 3, 3][Rng::stream(seed, "c15-decoy").below(7)]);
         run.set("hook_union_at", *Rng::stream(seed, "c15-hook-union").pick(&[-1, -1, -1, 0, 1, 2]));
         if run.get("hook_union_at") >= 0 && run.get("driver") != 3 {
             let mut ur = Rng::stream(seed, "c15-union-fold");
